@@ -258,4 +258,4 @@ def run_for(ck, prop):
     for label, d in CONFIGS[prop]["quick" if quick else "thorough"]:
         c = dict(BASE)
         c.update(d)
-        run_config(ck, prop, label, c, quick, rng, 1500 if quick else 6000)
+        run_config(ck, prop, label, c, quick, rng, (12000 if prop == "C16" else 3000) if quick else 20000)
